@@ -241,5 +241,144 @@ impl Drop for RecStream {
     fn drop(&mut self) {
         self.shadow.touch();
         self.log.lock().unwrap().push(Ev::Dropped);
+        // observers waiting on the fake clock's monitor re-evaluate their condition
+        metrique_writer_core::__verif::time::poke();
+    }
+}
+
+// ------------------------------------------------------------------------------------------
+// polling a future with a waker that snapshots the stream log at the instant it is woken
+
+pub struct SnapWaker {
+    shadow: Shadow,
+    log: Log,
+    pub snapshot: Mutex<Option<Vec<Ev>>>,
+    woken: LMutex<bool>,
+    cv: LCondvar,
+}
+
+impl std::task::Wake for SnapWaker {
+    fn wake(self: Arc<Self>) {
+        self.wake_by_ref()
+    }
+    fn wake_by_ref(self: &Arc<Self>) {
+        // runs on the thread that completes the future (the writer thread)
+        self.shadow.touch();
+        let snap = self.log.lock().unwrap().clone();
+        let mut s = self.snapshot.lock().unwrap();
+        if s.is_none() {
+            *s = Some(snap);
+        }
+        drop(s);
+        *self.woken.lock().unwrap() = true;
+        self.cv.notify_all();
+    }
+}
+
+/// Polls `fut` to completion; returns the stream log as it was when completion was signalled
+/// (at the wake, or at the poll that found it ready).
+pub fn wait_with_snapshot<F: std::future::Future>(fut: F, log: &Log) -> (F::Output, Vec<Ev>) {
+    let w = Arc::new(SnapWaker {
+        shadow: Shadow::new(),
+        log: log.clone(),
+        snapshot: Mutex::new(None),
+        woken: LMutex::new(false),
+        cv: LCondvar::new(),
+    });
+    let waker = std::task::Waker::from(w.clone());
+    let mut cx = std::task::Context::from_waker(&waker);
+    let mut fut = std::pin::pin!(fut);
+    loop {
+        match fut.as_mut().poll(&mut cx) {
+            std::task::Poll::Ready(v) => {
+                let snap = w
+                    .snapshot
+                    .lock()
+                    .unwrap()
+                    .take()
+                    .unwrap_or_else(|| log.lock().unwrap().clone());
+                return (v, snap);
+            }
+            std::task::Poll::Pending => {
+                let mut g = w.woken.lock().unwrap();
+                while !*g {
+                    g = w.cv.wait(g).unwrap();
+                }
+                *g = false;
+            }
+        }
+    }
+}
+
+/// "append returned" bookkeeping shared by producers and observers (plain std state: the push
+/// is glued to the end of the append, the read to the observer's next visible step).
+#[derive(Clone, Default)]
+pub struct Returned(pub Arc<Mutex<Vec<Tag>>>);
+
+impl Returned {
+    pub fn push(&self, t: Tag) {
+        self.0.lock().unwrap().push(t);
+    }
+    pub fn get(&self) -> Vec<Tag> {
+        self.0.lock().unwrap().clone()
+    }
+}
+
+// ------------------------------------------------------------------------------------------
+// a metrics recorder that counts counter increments by name
+
+#[derive(Default)]
+pub struct CountingRecorder {
+    pub counts: Arc<Mutex<BTreeMap<String, u64>>>,
+    shadow: Option<LArc<Shadow>>,
+}
+
+impl CountingRecorder {
+    pub fn new() -> (CountingRecorder, Arc<Mutex<BTreeMap<String, u64>>>) {
+        let counts = Arc::new(Mutex::new(BTreeMap::new()));
+        (
+            CountingRecorder {
+                counts: counts.clone(),
+                shadow: Some(LArc::new(Shadow::new())),
+            },
+            counts,
+        )
+    }
+}
+
+struct CounterCell {
+    name: String,
+    counts: Arc<Mutex<BTreeMap<String, u64>>>,
+    shadow: Option<LArc<Shadow>>,
+}
+
+impl metrics_024::CounterFn for CounterCell {
+    fn increment(&self, value: u64) {
+        if let Some(s) = &self.shadow {
+            s.touch();
+        }
+        *self.counts.lock().unwrap().entry(self.name.clone()).or_default() += value;
+    }
+    fn absolute(&self, value: u64) {
+        self.counts.lock().unwrap().insert(self.name.clone(), value);
+    }
+}
+
+impl metrics_024::Recorder for CountingRecorder {
+    fn describe_counter(&self, _: metrics_024::KeyName, _: Option<metrics_024::Unit>, _: metrics_024::SharedString) {}
+    fn describe_gauge(&self, _: metrics_024::KeyName, _: Option<metrics_024::Unit>, _: metrics_024::SharedString) {}
+    fn describe_histogram(&self, _: metrics_024::KeyName, _: Option<metrics_024::Unit>, _: metrics_024::SharedString) {}
+    fn register_counter(&self, key: &metrics_024::Key, _: &metrics_024::Metadata<'_>) -> metrics_024::Counter {
+        metrics_024::Counter::from_arc(Arc::new(CounterCell {
+            name: key.name().to_string(),
+            counts: self.counts.clone(),
+            shadow: self.shadow.clone(),
+        }))
+    }
+    fn register_gauge(&self, _: &metrics_024::Key, _: &metrics_024::Metadata<'_>) -> metrics_024::Gauge {
+        metrics_024::Gauge::noop()
+    }
+    fn register_histogram(&self, _: &metrics_024::Key, _: &metrics_024::Metadata<'_>) -> metrics_024::Histogram {
+        metrics_024::Histogram::noop()
     }
 }
